@@ -243,6 +243,18 @@ def with_array_forms(shards, tier, pick):
     return shards + extra
 
 
+def with_hash_seeds(shards, tier, pick):
+    """Copies of the picked shards run in fresh interpreters under other string-hash seeds: nothing may depend on
+    the iteration order of a set of strings."""
+    seeds = ["1", "2"] if tier == "quick" else ["1", "2", "3", "4"]
+    extra = []
+    for sh in shards:
+        if "__env__" not in sh and pick(sh):
+            for seed in seeds:
+                extra.append(dict(sh, __env__={"PYTHONHASHSEED": seed}))
+    return shards + extra
+
+
 def load_check(check_id):
     if VERIF not in sys.path:
         sys.path.insert(0, VERIF)
